@@ -107,10 +107,15 @@ Definition s_open (h : list node) (p : path) (fl : oflags) (perm : N) : opened :
       else OpNode h (cur st)
   end.
 
+(* a new open file description starts at offset 0, also with O_APPEND (which
+   moves the offset to the end before each write) *)
+Definition s_new_handle (h : list node) (i : nat) (fl : oflags) : list node * handle :=
+  ((if f_trunc fl then upd h i (set_data []) else h), mkH i 0%Z fl true).
+
 Definition s_do_open (s : st) (p : path) (fl : oflags) (perm : N) : st * out :=
   match s_open (heap s) p fl perm with
   | OpErr e => (s, OErr e)
-  | OpNode h i => let '(h1, hd) := new_handle h i fl in (mkSt h1 (handles s ++ [hd]), OOk)
+  | OpNode h i => let '(h1, hd) := s_new_handle h i fl in (mkSt h1 (handles s ++ [hd]), OOk)
   end.
 
 (* ---- mkdir -p ---------------------------------------------------------------- *)
@@ -127,8 +132,9 @@ Fixpoint s_mkdirall (h : list node) (stack : list nat) (p : path) (perm : N) : l
            | Some _ =>
                match s_resolve spec_max_links h stack None [c] true with
                | RFound st' _ => if is_dir h (cur st') then s_mkdirall h st' rest perm else (h, Some EOther)
-               | RMissing _ _ => (h, Some ENotExist)                          (* dangling link *)
-               | RErr e => (h, Some e)
+               (* the name exists but does not lead anywhere: mkdir(2) says EEXIST *)
+               | RMissing _ _ => (h, Some EExist)
+               | RErr _ => (h, Some EExist)
                end
            end
   end.
@@ -165,26 +171,28 @@ Definition spec_raw (s : st) (o : op) : st * out :=
   | Create p => s_do_open s p rdwr_create_trunc 438%N
   | Read i n =>
       with_handle s i (fun hd =>
-        if negb (readable (h_fl hd)) then (s, OErr EClosed)                  (* EBADF *)
+        if negb (readable (h_fl hd)) then (s, OErr EOther)                   (* EBADF *)
         else if is_dir (heap s) (h_ino hd) then (s, OErr EOther)              (* EISDIR *)
         else
         let d := n_data (get (heap s) (h_ino hd)) in
         if (h_off hd <? 0)%Z then (s, OErr EOther)
+        else if Nat.eqb n 0 then (s, OBytes [])                              (* read(fd, buf, 0) = 0 *)
         else if (h_off hd >=? blen d)%Z then (s, OErr EEOF)
         else let bs := firstn n (skipn (Z.to_nat (h_off hd)) d) in
              (mkSt (heap s) (upd_h (handles s) i (set_off (h_off hd + blen bs)%Z)), OBytes bs))
   | ReadAt i n off =>
       with_handle s i (fun hd =>
-        if negb (readable (h_fl hd)) then (s, OErr EClosed)
+        if negb (readable (h_fl hd)) then (s, OErr EOther)
         else if is_dir (heap s) (h_ino hd) then (s, OErr EOther)
         else
         let d := n_data (get (heap s) (h_ino hd)) in
         if (off <? 0)%Z then (s, OErr EOther)                                  (* EINVAL *)
+        else if Nat.eqb n 0 then (s, OBytes [])
         else if (off >=? blen d)%Z then (s, OErr EEOF)
         else (s, OBytes (firstn n (skipn (Z.to_nat off) d))))
   | Write i p =>
       with_handle s i (fun hd =>
-        if negb (writable (h_fl hd)) then (s, OErr EClosed)
+        if negb (writable (h_fl hd)) then (s, OErr EOther)                   (* EBADF *)
         else
         let d := n_data (get (heap s) (h_ino hd)) in
         let o := if f_app (h_fl hd) then blen d else h_off hd in            (* O_APPEND: always at the end *)
@@ -368,7 +376,10 @@ Definition open_corner (b : backend) (h : list node) (p : path) (fl : oflags) (p
     (negb (f_creat fl && f_excl fl), "o-excl-ignored");
     (negb (match s_node h p with inl i => is_dir h i | _ => false end), "open-directory");
     (negb (match m, r with OpErr ENotExist, OpErr EOther => true | _, _ => false end), t_prefix);
-    (opened_eqb m r, t_link) ].
+    (opened_eqb m r, t_link);
+    (negb (f_app fl) || f_trunc fl ||
+     match m with OpNode h' i => Nat.eqb (List.length (n_data (get h' i))) 0 | OpErr _ => true end,
+     "append-offset-fixed-at-open") ].
 Definition handle_corner (s : st) (i : nat) (f : handle -> list (bool * string)) : list (bool * string) :=
   match nth_error (handles s) i with
   | Some hd => if h_open hd then f hd else []
@@ -385,21 +396,25 @@ Definition corners (b : backend) (s : st) (o : op) : list (bool * string) :=
       let m := mkdirall_loop b h p 0 [] perm in let r := s_mkdirall h [0] p perm in
       [ (clean_path p, t_path);
         (negb (match snd m, snd r with Some ENotExist, Some EOther => true | _, _ => false end), t_prefix);
+        (negb (match snd m, snd r with Some ENotExist, Some EExist | Some EOther, Some EExist => true | _, _ => false end),
+         "mkdirall-broken-link-error-class");
         (mkdirall_eqb m r, t_link) ]
   | OpenFile p fl perm => open_corner b h p fl perm
   | Create p => open_corner b h p rdwr_create_trunc 438%N
   | ReadFile p => open_corner b h p rdonly 420%N
   | WriteFile p _ perm => open_corner b h p rdwr_create_trunc perm
-  | Read i _ =>
+  | Read i n =>
       handle_corner s i (fun hd =>
         [ (readable (h_fl hd), "open-mode-not-enforced");
           (negb (is_dir h (h_ino hd)), "open-directory");
-          (negb (h_off hd <? 0)%Z, "negative-offset-panic") ])
-  | ReadAt i _ off =>
+          (negb (h_off hd <? 0)%Z, "negative-offset-panic");
+          (negb (Nat.eqb n 0 && (h_off hd >=? blen (n_data (get h (h_ino hd))))%Z), "zero-length-read-at-eof-reports-eof") ])
+  | ReadAt i n off =>
       handle_corner s i (fun hd =>
         [ (readable (h_fl hd), "open-mode-not-enforced");
           (negb (is_dir h (h_ino hd)), "open-directory");
-          (negb (off <? 0)%Z, "negative-offset-panic") ])
+          (negb (off <? 0)%Z, "negative-offset-panic");
+          (negb (Nat.eqb n 0 && (off >=? blen (n_data (get h (h_ino hd))))%Z), "zero-length-read-at-eof-reports-eof") ])
   | Write i _ =>
       handle_corner s i (fun hd =>
         [ (writable (h_fl hd), "open-mode-not-enforced");
